@@ -403,8 +403,6 @@ def c02(ctx):
                 admitted |= set(sw[2])
         arms = set()
         for b in F.with_closures(pn):
-            if b.kind != "closure":
-                continue
             for bi in range(len(b.blocks)):
                 sw = tables.switch_on_discr(b, bi)
                 if sw and sw[1].peel_refs().adt() == TT:
